@@ -408,11 +408,24 @@ func genWorldPlan(prop string, master uint64, run int) Plan {
 		u := b.parse(r.Chance(1, 4))
 		sw := setterWeights(r, []int{3, 2, 2, 3, 3, 2, 4, 3, 3})
 		ow := r.Range(0, 2)
+		// "any input, any base": in a third of the plans bases are also URL *objects* in whatever state
+		// their history left them (a state no base string parses to), and copies of them
+		rw, cw := 0, 0
+		if r.Chance(1, 3) {
+			rw, cw = r.Range(1, 3), r.Range(0, 1)
+		}
 		for i := 0; i < n; i++ {
-			if r.Weighted([]int{10, ow}) == 0 {
+			switch r.Weighted([]int{10, ow, rw, cw}) {
+			case 0:
 				b.set(u, r.Weighted(sw))
-			} else {
+			case 1:
 				b.observer(u)
+			case 2:
+				b.resolve(u, r.Weighted([]int{3, 1, 2}))
+				u = b.pickU()
+			case 3:
+				b.clone(u)
+				u = b.pickU()
 			}
 		}
 	case "C05":
